@@ -664,7 +664,12 @@ static int _01inverse(vorbis_block *vb,vorbis_look_residue *vl,
     for(j=0;j<ch;j++)
       partword[j]=_vorbis_block_alloc(vb,partwords*sizeof(*partword[j]));
 
-    for(s=0;s<look->stages;s++){
+    /* the classification words are part of the packet whether or not
+       any classification has a book in any stage (Vorbis I, 8.6.2:
+       they are read in pass 0); a residue without books must still
+       consume them, or whatever is decoded after it reads from the
+       wrong place */
+    for(s=0;s<look->stages || s==0;s++){
 
       /* each loop decodes on partition codeword containing
          partitions_per_word partitions */
@@ -820,7 +825,9 @@ int res2_inverse(vorbis_block *vb,vorbis_look_residue *vl,
     for(i=0;i<ch;i++)if(nonzero[i])break;
     if(i==ch)return(0); /* no nonzero vectors */
 
-    for(s=0;s<look->stages;s++){
+    /* as in _01inverse: pass 0 reads the classification words even
+       when there is no book in any stage */
+    for(s=0;s<look->stages || s==0;s++){
       for(i=0,l=0;i<partvals;l++){
 
         if(s==0){
